@@ -23,8 +23,15 @@ def words(rng, lo=1, hi=4, cap=False):
 
 
 class Gen:
-    def __init__(self, rng, compat):
-        self.rng, self.compat = rng, compat
+    def __init__(self, rng, compat, notes=True, refs=True):
+        self.rng, self.compat, self.refs = rng, compat, refs
+        self.allow_notes = notes and not compat
+        self.nlabels = 0
+        self.notes = []           # token strings of the footnote contents, index = note number
+
+    def label(self):
+        self.nlabels += 1
+        return "lab%d" % self.nlabels
 
     def text(self, cap=False): return "T" + h(words(self.rng, cap=cap))
 
@@ -52,7 +59,9 @@ class Gen:
         if k < 0.42: return self.emph()
         if k < 0.50: return "C" + h(r.choice(["code", "a&b", "x < y", "<tag>", "f(x)", "1 > 0", "say \"hi\"", "p*q*r", "u_v_w", "[not](link)"]))
         if k < 0.58: return "L ( " + " ".join([self.text()] + ([self.emph(1)] if r.random() < 0.3 else [])) + " ) " + h(url) + " " + title
-        if k < 0.62: return "A" + h(r.choice(["http://auto.example/", "http://auto.example/x?a=1&b=2", "https://e.org/~u"]))
+        if k < 0.60: return "A" + h(r.choice(["http://auto.example/", "http://auto.example/x?a=1&b=2", "https://e.org/~u"]))
+        if k < 0.61 and self.refs: return "R ( " + self.text() + " ) " + h(self.label()) + " " + h(url) + " " + title
+        if k < 0.62 and self.refs: return "I" + h(words(r)) + " " + h(self.label()) + " " + h(r.choice(["img.png", "dir/pic.gif"])) + " " + title
         if k < 0.67: return "M" + h(words(r)) + " " + h(r.choice(["img.png", "http://e.com/i.jpg?a=1&b=2", "dir/pic.gif"])) + " " + title
         if k < 0.72: return "X%d" % ord(r.choice(ESCAPABLE))
         if k < 0.76: return r.choice(["a", "l", "g"])
@@ -64,19 +73,22 @@ class Gen:
         if k < 0.96: return r.choice(["U", "D"]) + h(r.choice(["2", "n", "ab"]))
         return "H" + h(r.choice(["a+b", "x^2", "a < b", "\\alpha"]))
 
-    def inls(self, brk=True, lo=1, hi=5):
+    def inls(self, brk=True, lo=1, hi=5, para=False):
         r = self.rng
         out = [self.text(cap=True)]
         for _ in range(r.randint(lo - 1, hi - 1)):
-            if brk and r.random() < 0.08 and out[-1] != "b" and not out[-1].startswith(("a", "l", "g", "2", "3", "e")):
-                out.append("b"); out.append(self.text(cap=True))
+            if brk and r.random() < 0.08 and out[-1] not in ("b", "s") and not out[-1].startswith(("a", "l", "g", "2", "3", "e", "F")):
+                out.append(r.choice(["b", "s"]) if para else "b"); out.append(self.text(cap=True))
+            elif para and self.allow_notes and len(self.notes) < 5 and r.random() < 0.1 and out[-1][0] in "TC":
+                out.append("F%d" % len(self.notes))
+                self.notes.append("( " + " ".join([self.text(cap=True)] + ([self.emph(1)] if r.random() < 0.3 else [])) + " )")
             else:
                 out.append(self.inl())
+        res = "( " + " ".join(out) + " )"
         if "l" in out:
             # a lone '<' followed, later in the paragraph, by a '>' inside a code span or URL is paired with it (recorded finding, probed separately)
-            out = [("C" + h("code")) if (x[0] in "CHA" and "3e" in x) else x for x in out]
-            out = [x for x in out if x != "g"] or [self.text(cap=True)]
-        return "( " + " ".join(out) + " )"
+            res = " ".join((x[0] + h("code")) if (x[0] in "CHA" and re.fullmatch(r"[CHA](?:[0-9a-f]{2})*", x) and re.search(r"^.(?:..)*3e", x)) else x for x in res.split(" ") if x != "g")
+        return res
 
     def cell_inls(self):
         r = self.rng
@@ -86,15 +98,23 @@ class Gen:
         r = self.rng
         while True:
             k = r.random()
-            if k < 0.28: return "para", "para " + self.inls()
+            if k < 0.26: return "para", "para " + self.inls(para=True)
+            if k < 0.28 and not self.compat:
+                return "figure", "figure %s %s %s" % (h(words(r)), h(r.choice(["fig.png", "http://e.com/f.jpg?a=1&b=2"])), r.choice(["-", h("Fig & title")]))
             if k < 0.38: return "atx", "atx %d ( %s )" % (r.randint(1, 6), " ".join([self.text(cap=True)] + ([self.emph(1)] if r.random() < 0.3 else []) + (["C" + h("co&de")] if r.random() < 0.2 else [])))
             if k < 0.44: return "setext", "setext %d ( %s )" % (r.randint(1, 2), self.text(cap=True))
-            if k < 0.50: return "hr", "hr"
+            if k < 0.48: return "hr", "hr"
+            if k < 0.49 and not self.compat and prev != "deflist":
+                items = " ".join("( %s ) ( %s )" % (self.text(cap=True), " ".join(self.inls(brk=False, hi=2) for _ in range(r.randint(1, 2)))) for _ in range(r.randint(1, 2)))
+                return "deflist", "deflist ( %s )" % items
+            if k < 0.50 and prev != "html":
+                lines = ["<div class=\"c\">", r.choice(["raw <b>html</b> & text", "plain words", "<span>x</span>"]), "</div>"]
+                return "html", "html %s ;" % " ".join(h(l) for l in lines)
             if k < 0.57 and not self.compat:
                 lines = [r.choice(["code line", "x = a & b;", "if (a < b) { }", "  indented", "<tag attr=\"v\">", "* not a list", "# not a heading", "", "tab\there"]) for _ in range(r.randint(1, 4))]
                 if lines[-1] == "": lines[-1] = "end"
                 return "fenced", "fenced %s %s ;" % (r.choice(["-", "-", h("python"), h("c")]), " ".join(h(l) for l in lines))
-            if k < 0.63 and prev not in ("list", "indented"):
+            if k < 0.63 and prev not in ("list", "indented", "deflist"):
                 lines = [r.choice(["code line", "x = a & b;", "if (a < b) { }", "  more indented", "<tag>", "* star", "1. one"]) for _ in range(r.randint(1, 3))]
                 return "indented", "indented %s ;" % " ".join(h(l) for l in lines)
             if k < 0.72: return "quote", "quote ( %s )" % " ".join(self.inls(brk=False, hi=3) for _ in range(r.randint(1, 3)))
@@ -122,6 +142,8 @@ class Gen:
         for _ in range(n or r.randint(1, 7)):
             kind, t = self.block(prev)
             out.append((kind, t)); prev = kind
+        if self.notes:
+            out.append(("notes", "notes " + " ".join(self.notes)))
         return out
 
 
@@ -153,7 +175,7 @@ def blocks_part(rep, tier, rng, bad):
     n = 60 if tier == "quick" else 1500
     lines = []
     for i in range(n):
-        g = Gen(rng, False)
+        g = Gen(rng, False, notes=False, refs=False)
         parts = []
         while len(parts) < 2:
             k, t = g.block(None)
@@ -237,7 +259,7 @@ def run(rep, tier, seed):
     comp_ok = 0
     clines, cexts, cmeta = [], [], []
     for i in range(m):
-        g = Gen(rng, False)
+        g = Gen(rng, False, notes=False, refs=False)
         d = [b for b in (g.block(None) for _ in range(rng.randint(2, 5))) if b[0] in ("para", "atx", "setext", "hr", "fenced", "quote")]
         d = [(k, t) for k, t in d]
         if len(d) < 2: continue
